@@ -10,6 +10,10 @@ record the label table `df` the code built.  The model is run on the recorded in
 
 Oracles (real code only): constant rate within coarse intervals / repetition within periods, and value
 equality with the fine problem plus explicit equalities.
+
+The price data of a case goes to the real code in a FORM drawn per series (float / integer arrays, lists, pandas
+Series, or everything as a DataFrame: section "forms of the price data"); the reference of the oracle always works on
+its own float arrays made from the case record.
 """
 import copy
 import random
@@ -285,8 +289,8 @@ def gen_case(rnd, oracle=None, kind=None, atype=None, dst=None, straddle=False, 
     if len(allnodes) == 2 and len(nodes) == 1:
         others.append({'type': 'Transport', 'name': 'link', 'nodes': ['n1', 'n2'],
                        'args': {'min_cap': 0.0, 'max_cap': 2.0, 'efficiency': 0.875}})
-    return {'grid': g, 'nodes': allnodes, 'prices': prices, 'focus': focus, 'opt': opt, 'others': others,
-            'kind': kind, 'oracle': bool(oracle), 'aligned': aligned, 'uniform_dt': uniform, 'probe': probe}
+    return draw_forms(rnd, {'grid': g, 'nodes': allnodes, 'prices': prices, 'focus': focus, 'opt': opt, 'others': others,
+                            'kind': kind, 'oracle': bool(oracle), 'aligned': aligned, 'uniform_dt': uniform, 'probe': probe})
 
 
 def gen_window_case(rnd, atype=None):
@@ -412,9 +416,9 @@ def gen_window_case(rnd, atype=None):
     if len(allnodes) == 2 and len(nodes) == 1:
         others.append({'type': 'Transport', 'name': 'link', 'nodes': ['n1', 'n2'],
                        'args': {'min_cap': 0.0, 'max_cap': 2.0, 'efficiency': 0.875}})
-    return {'grid': g, 'nodes': allnodes, 'prices': prices, 'focus': focus, 'opt': opt, 'others': others,
-            'kind': 'freq', 'oracle': True, 'aligned': True, 'uniform_dt': True, 'probe': None,
-            'window': {'where': where, 'lead': lead, 'coarse_steps': nw, 'minor_per_coarse': m0, 'tail': tail}}
+    return draw_forms(rnd, {'grid': g, 'nodes': allnodes, 'prices': prices, 'focus': focus, 'opt': opt, 'others': others,
+                            'kind': 'freq', 'oracle': True, 'aligned': True, 'uniform_dt': True, 'probe': None,
+                            'window': {'where': where, 'lead': lead, 'coarse_steps': nw, 'minor_per_coarse': m0, 'tail': tail}})
 
 
 def gen_anchor_case(rnd, atype=None):
@@ -439,6 +443,142 @@ def gen_anchor_case(rnd, atype=None):
     c['probe'] = 'anchored_period'
     c['anchor'] = {'days_after_anchor': wd, 'steps_first_week': first, 'steps_per_week': m}
     return c
+
+
+# ------------------------------------------------------------------ forms of the price data
+# The data of a case (`case['prices']`: key -> list of numbers) is handed to the real code in a FORM drawn per series
+# (`case['forms']`: key -> form) and, for some cases, all together as a DataFrame (`case['frame']`: 'range' = default index,
+# 'timepoints' = indexed by the grid's time points, as `Timegrid.prices_to_grid` / `eao.io.optimize` hand it on).
+# The integer forms need whole numbers: the drawn series is rounded (in the case record itself, so the reference sees the same
+# numbers) - the mean over the minor steps of a coarse interval is then in general NOT a whole number.
+FLOAT_FORMS = ['f8', 'list_float', 'series']
+INT_FORMS = ['i8', 'i4', 'list_int', 'series_int']
+ARRAY_FORMS = ['f8', 'i8', 'i4']
+# what the unchanged code accepts, per USE of a series (a form the code rejects is out of scope):
+#   price of a SimpleContract / Contract / MultiCommodityContract: `.copy()`, list -> asarray, Series -> values: everything
+#   min_cap / max_cap by name (make_vector): `.copy()`, Series -> values, then `vec[I]` with an index array: no lists
+#   costs_time_series of a Transport / ExtendedTransport: `.copy()`, Series -> values, then indexed with index arrays: no lists
+#   price of a Storage: `.copy()`, then indexed with index arrays and used as it is: arrays and Series, no lists (the column of
+#   a frame indexed by time points - what `eao.io.optimize` hands on - is indexed by position, which pandas 2.x still does)
+ACCEPTS = {
+    'contract_price': FLOAT_FORMS + INT_FORMS,
+    'vector': ARRAY_FORMS + ['series', 'series_int'],
+    'transport_costs': ARRAY_FORMS + ['series', 'series_int'],
+    'storage_price': ARRAY_FORMS + ['series', 'series_int'],
+}
+FRAME_INDEX = {'contract_price': ['range', 'timepoints'], 'vector': ['range', 'timepoints'], 'transport_costs': ['range', 'timepoints'],
+               'storage_price': ['range', 'timepoints']}
+
+
+def key_uses(case):
+    """key of the price data -> set of uses (see ACCEPTS) by the focus asset and the others"""
+    uses = {}
+    for s in [case['focus']] + list(case['others']):
+        for arg, v in s['args'].items():
+            if not isinstance(v, str) or v not in case['prices']:
+                continue
+            if arg == 'price':
+                u = 'storage_price' if s['type'] == 'Storage' else 'contract_price'
+            elif arg == 'costs_time_series':
+                u = 'transport_costs'
+            elif arg in ('min_cap', 'max_cap'):
+                u = 'vector'
+            else:
+                continue
+            uses.setdefault(v, set()).add(u)
+    return uses
+
+
+def draw_forms(rnd, case, p_plain=0.35, p_frame=0.15):
+    """draws the form of every series of the case (and whether the whole data goes in as a DataFrame) among those the unchanged
+    code accepts for the uses of the series; a series given in an integer form is rounded to whole numbers in the case record.
+    Drawn AFTER everything else of the case, from the case's own generator."""
+    uses = key_uses(case)
+    forms = {}
+    frame = None
+    if rnd.random() < p_frame:
+        idx = set(['range', 'timepoints'])
+        for us in uses.values():
+            for u in us:
+                idx &= set(FRAME_INDEX[u])
+        frame = rnd.choice(sorted(idx))
+    for k in sorted(case['prices']):
+        ok = [f for f in FLOAT_FORMS + INT_FORMS if all(f in ACCEPTS[u] for u in uses.get(k, []))]
+        if frame is not None:
+            ok = ARRAY_FORMS                                       # a column of the frame: only its dtype matters
+        form = 'f8' if rnd.random() < p_plain else rnd.choice(ok)
+        if form in INT_FORMS:
+            case['prices'][k] = [int(round(v)) for v in case['prices'][k]]
+        forms[k] = form
+    case['forms'] = forms
+    case['frame'] = frame
+    return case
+
+
+def one_series(values, form):
+    if form == 'f8':
+        return np.asarray(values, dtype=float)
+    if form == 'i8':
+        return np.asarray(values, dtype=np.int64)
+    if form == 'i4':
+        return np.asarray(values, dtype=np.int32)
+    if form == 'list_float':
+        return [float(v) for v in values]
+    if form == 'list_int':
+        return [int(v) for v in values]
+    if form == 'series':
+        return pd.Series(np.asarray(values, dtype=float))
+    if form == 'series_int':
+        return pd.Series(np.asarray(values, dtype=np.int64))
+    raise ValueError('unknown form of a series: %r' % (form,))
+
+
+def make_prices(case, tg):
+    """the data of the case in the drawn forms, as handed to the REAL code (fresh objects on every call: nothing is shared with
+    the reference, which works on its own float arrays made from the case record)"""
+    forms = case.get('forms') or {}
+    for k, f in forms.items():
+        if f in INT_FORMS and any(v != int(v) for v in case['prices'][k]):
+            raise ValueError('series %s in integer form %s is not whole-numbered' % (k, f))
+    if case.get('frame'):
+        # columns of a frame: only the dtype of the form matters
+        d = {k: one_series(v, 'i4' if forms.get(k) == 'i4' else 'i8' if forms.get(k) in INT_FORMS else 'f8') for k, v in case['prices'].items()}
+        return pd.DataFrame(d, index=tg.timepoints if case['frame'] == 'timepoints' else None)
+    return {k: one_series(v, forms.get(k, 'f8')) for k, v in case['prices'].items()}
+
+
+def prices_changed(case, tg, prices):
+    """None, or what the set-up did to the caller's data (compared with the same data made afresh: type, dtype, index, values)"""
+    fresh = make_prices(case, tg)
+    if type(prices) is not type(fresh) or list(prices) != list(fresh):
+        return 'the price data is a %s with keys %s after the set-up (given: %s with keys %s)' % (
+            type(prices).__name__, list(prices)[:6], type(fresh).__name__, list(fresh)[:6])
+    if isinstance(fresh, pd.DataFrame) and not prices.index.equals(fresh.index):
+        return 'the index of the price frame differs after the set-up'
+    for k in fresh:
+        a, b = prices[k], fresh[k]
+        if type(a) is not type(b):
+            return 'series %s is a %s after the set-up (given: %s)' % (k, type(a).__name__, type(b).__name__)
+        if isinstance(b, list):
+            same = len(a) == len(b) and all(type(x) is type(y) and x == y for x, y in zip(a, b))
+        elif isinstance(b, pd.Series):
+            same = a.dtype == b.dtype and a.index.equals(b.index) and np.array_equal(a.values, b.values)
+        else:
+            same = a.dtype == b.dtype and a.shape == b.shape and np.array_equal(a, b)
+        if not same:
+            return 'series %s (form %s) differs after the set-up: %s (given: %s)' % (
+                k, (case.get('forms') or {}).get(k, 'f8'), list(a)[:8], list(b)[:8])
+    return None
+
+
+def focus_series_form(case):
+    """form of the focus asset's price / cost series (None: it has none)"""
+    a = case['focus']['args']
+    k = a.get('price') if isinstance(a.get('price'), str) else a.get('costs_time_series')
+    if not isinstance(k, str):
+        return None
+    f = (case.get('forms') or {}).get(k, 'f8')
+    return f if not case.get('frame') else 'frame[%s]:%s' % (case['frame'], f)
 
 
 def cases(seed, n):
@@ -577,7 +717,7 @@ def build_one(case, opt):
     tg = scen.make_grid(case['grid'])
     nodes = scen.make_nodes(case['nodes'])
     a = scen.build_asset(focus_spec(case, opt), nodes)
-    prices = {k: np.asarray(v, dtype=float) for k, v in case['prices'].items()}
+    prices = make_prices(case, tg)          # in the forms drawn for the case
     return a, tg, prices
 
 
@@ -590,6 +730,9 @@ def setup_json(case, opt, record=False):
         out = problem_json(op, name=a.name, nodes=[n.name for n in a.nodes])
     except Exception as e:
         out = {'err': err_class(e), 'msg': str(e)[:120]}
+    ch = prices_changed(case, tg, prices)
+    if ch is not None:
+        out['input_changed'] = ch
     return out, rec
 
 
@@ -772,6 +915,8 @@ def step_labels_py(tg, freq_period, freq_duration):
     with the code in `compare` - the code counts the positions of a partial first period from the grid start, finding F-13m)"""
     tp = tg.timepoints
     periods, durations = raw_boundaries(tp, tg.tz, freq_period, freq_duration, end=tg.end)
+    if durations is None:
+        durations = [tp[0]]     # no duration given: the whole horizon is ONE duration
     labels = []
     last_p, cnt = None, 0
     for t in tp:
@@ -844,7 +989,9 @@ def classes_by_keys(keys_of_var):
 
 
 def reference_portfolio(case):
-    """the SAME portfolio with the focus asset replaced by its ordinary fine version plus explicit equalities"""
+    """the SAME portfolio with the focus asset replaced by its ordinary fine version plus explicit equalities.
+    Its data are float arrays made here from the case record (never the objects handed to the real portfolio), whatever the
+    form in which the real code gets them."""
     opt = case['opt']
     tg = scen.make_grid(case['grid'])
     prices = {k: np.asarray(v, dtype=float) for k, v in case['prices'].items()}
@@ -924,7 +1071,7 @@ def reference_portfolio(case):
 
 def real_portfolio(case):
     tg = scen.make_grid(case['grid'])
-    prices = {k: np.asarray(v, dtype=float) for k, v in case['prices'].items()}
+    prices = make_prices(case, tg)          # in the forms drawn for the case; the reference has its own float arrays
     nodes = scen.make_nodes(case['nodes'])
     a = scen.build_asset(focus_spec(case, case['opt']), nodes)
     others = [scen.build_asset(s, nodes) for s in case['others']]
@@ -982,13 +1129,25 @@ def oracle(case, impl_result=None):
         return [], ['real-setup-error:' + err_class(e)]
     if out is None:
         return [], ['real-unsolved:' + str(res)]
+    ch = prices_changed(case, tg, prices)
+    if ch is not None:
+        feats.append('input-changed')
+        if impl_result is not None:
+            impl_result['with'].setdefault('input_changed', ch)
     try:
         rportf, rtg, rprices, info = reference_portfolio(case)
         rop, rres, rout = solve_portfolio(rportf, rtg, rprices)
     except Exception as e:
         return [], ['ref-setup-error:' + err_class(e) + ':' + str(e)[:60]]
     kind = kind_facts(case, info)
-    facts = {'kind': kind, 'asset_type': case['focus']['type'], 'opt': sorted(opt)}
+    facts = {'kind': kind, 'asset_type': case['focus']['type'], 'opt': sorted(opt), 'series_form': focus_series_form(case)}
+    if facts['series_form'] is not None:
+        feats.append('form:' + facts['series_form'])
+        a_ = case['focus']['args']
+        k_ = a_.get('price') if isinstance(a_.get('price'), str) else a_.get('costs_time_series')
+        if 'freq' in opt and (case.get('forms') or {}).get(k_) in INT_FORMS and any(
+                I and float(np.mean([case['prices'][k_][t] for t in I])) % 1 != 0 for I in info['intervals']):
+            feats.append('int-series-nonwhole-coarse-mean')
     cols = [c for (a, n), c in impl.disp_cols(portf).items() if a == 'X']
     disp = out['dispatch']
     dtf = np.asarray(tg.dt, dtype=float)
